@@ -25,11 +25,7 @@ Theorem c03_qubits : forall nq c, wf_circ nq c = true ->
   /\ length (new_qubits nq c) = nq + count_markers c
   /\ filter (fun t => t <? nq) (new_qubits nq c) = seq 0 nq
   /\ forall q, q < nq -> index_of q (new_qubits nq c) = Some (final_position c q).
-Proof.
-  intros nq c W. split; [exact (new_qubits_spec nq c)|]. split; [exact (new_qubits_length nq c W)|].
-  split; [|exact (fun q => index_of_new_qubits nq c q)].
-  rewrite new_qubits_spec. apply blocks_originals; lia.
-Qed.
+Proof. exact new_qubits_full. Qed.
 
 (* registers, classical bits: carried over unchanged (identity in the model; compared with the
    implementation by the correspondence check) *)
@@ -37,10 +33,7 @@ Theorem c03_registers : forall fac nq nc qregs cregs c,
   let r := transform_cut_wires fac nq nc qregs cregs c in
   cr_qubits r = new_qubits nq c /\ cr_qregs r = qregs /\ cr_nclbits r = nc /\ cr_cregs r = cregs /\
   cr_data r = cut_wires_gen fac nq c.
-Proof.
-  intros. subst r. unfold transform_cut_wires, new_qubits, cut_wires_gen.
-  destruct (structure_mapping nq c). cbn. repeat split.
-Qed.
+Proof. exact transform_fields. Qed.
 
 (* ---- instructions ---- *)
 
